@@ -1,9 +1,11 @@
-import Driver.KV
+import Driver.C30
 
 /-! Domain C06: every data request of a sequential history is answered from `Hv.Data.Model`;
-    a reply is flagged when it (or the resulting store) deviates from `Hv.Data.Spec`. -/
+    a reply is flagged when it (or the resulting store) deviates from `Hv.Data.Spec`.  The
+    histories also contain PatchTreasures requests (answered from `Model30`), because they can
+    summon a swamp. -/
 namespace Driver.C06
 
-def run (args : List String) : IO UInt32 := Driver.KV.run "C06" .c06 args
+def run (args : List String) : IO UInt32 := Driver.C30.runC06 args
 
 end Driver.C06
